@@ -204,10 +204,26 @@ def main(run, pid):
     ap.add_argument('--replay', default=None)
     args = ap.parse_args(sys.argv[2:])
     from . import tlc as _tlc
+    wanted = None
+    if args.replay:
+        # a replay file names the case by its structural signature and records tier and seed: the check is run again
+        # exactly as it was (everything is deterministic under a seed) and says whether that case shows again
+        try:
+            with open(args.replay) as fh:
+                rep = json.load(fh)
+            args.tier, args.seed = rep.get('tier', args.tier), int(rep.get('seed', args.seed))
+            wanted = json.dumps(rep['signature'], sort_keys=True, default=jdefault)
+        except Exception as e:
+            print('[%s] MACHINERY FAILURE: unreadable replay file %s: %s' % (pid, args.replay, e), flush=True)
+            sys.exit(2)
     ctx = Ctx(pid, args.tier, args.seed)
     ctx.replay = args.replay
     try:
         run(ctx)
+        if wanted is not None:
+            again = wanted in ctx.violation_counts or wanted in getattr(ctx, 'beyond_counts', {})
+            print('REPLAY %s: %s (tier %s, seed %s)' % (args.replay, 'reproduced' if again else 'not reproduced on this tree',
+                                                        args.tier, args.seed), flush=True)
         rc = ctx.finish()
     except _tlc.MachineryError as e:
         print('[%s] MACHINERY FAILURE: %s' % (pid, e), flush=True)
